@@ -116,6 +116,9 @@ func c06Build(cs c06Case) c06Built {
 	if cs.UseForm == 1 {
 		layName, useName = "layouts/lay", "~lay"
 	}
+	if cs.UseForm == 2 { // a tilde inside the name is a character like any other
+		layName, useName = "shared/lay~old", "shared/lay~old"
+	}
 	var lnodes []*Node
 	reserves := map[string]bool{}
 	for pos, ix := range cs.Layout {
@@ -354,6 +357,13 @@ func c06Run(c *Ctx) {
 	}
 	// fault cases
 	if c.Mine() {
+		for ia := 0; ia < c06InsForms; ia++ {
+			for _, cfg := range []int{0, 1} {
+				if !do(c06Case{Layout: []int{0, 1, 7}, UseForm: 2, InsA: ia, InsB: (ia + 1) % c06InsForms, Data: 0, Cfg: cfg}) {
+					return
+				}
+			}
+		}
 		for _, sp := range []string{"duplicate-insert", "missing-layout", "layout-uses-layout", "nested-duplicate-insert", "use-inside-insert"} {
 			for ia := 1; ia < c06InsForms; ia++ {
 				for _, uf := range []int{0, 1} {
